@@ -123,6 +123,18 @@ func (e *Encoder) stdlibCall(callee *ssa.Function, cm *ssa.CallCommon, args []Va
 		return "(+ " + strings.Join(terms, " ") + ")"
 	}
 	switch {
+	case (n == "slices.SortFunc" || n == "slices.SortStableFunc") && len(args) == 2:
+		if e.sortFuncModel(cm, args, st, pc) {
+			use()
+			return Val{T: resT}, true
+		}
+		return Val{}, false
+	case n == "cmp.Compare" && len(args) == 2 && isInt(args[0].T.Underlying()):
+		// cmp.Compare on integers: -1, 0, +1
+		use()
+		a, b := args[0], args[1]
+		return Val{T: resT, S: fmt.Sprintf("(ite %s %s (ite %s %s %s))", c.cmp("<", a.T, a.S, b.S), c.lit(resT, big.NewInt(-1)),
+			c.cmp("<", a.T, b.S, a.S), c.lit(resT, big.NewInt(1)), c.lit(resT, bigZero))}, true
 	case n == "slices.Sort" && len(args) == 1:
 		// slices.Sort(x) for integer elements (trusted library model): only the elements x[0:len(x)] change,
 		// and afterwards they are in ascending order. (That the result is a permutation is not modelled.)
